@@ -60,6 +60,8 @@ class NumpyOrSetEncoder(json.JSONEncoder):
             return int(obj)
         if isinstance(obj, np.floating):
             return float(obj)
+        if isinstance(obj, np.bool_):
+            return bool(obj)
 
         # Case for built-in Python sets
         if isinstance(obj, set):
